@@ -597,6 +597,7 @@ class Interp:
         self.fproduced: dict[tuple[int, int], list] = {}  # (ctx, fid) -> serials of produced objects
         self.fac_cb: dict[int, Any] = {}
         self.streams: dict[int, Any] = {}  # ctx -> (cm, iterator)
+        self.idle_streams: dict[int, list] = {}
         self.td_marks: dict[int, list[Any]] = {}  # ctx -> teardown markers observed
         self.failed_td: set[Any] = set()
         self.returned: dict[tuple[int, int, str], Any] = {}  # (ctx, t, name) -> serial first returned
@@ -854,12 +855,27 @@ class Interp:
         cm = self.real[idx].resource_added.stream_events(max_queue_size=100000)
         it = await cm.__aenter__()
         self.streams[idx] = (cm, it)
+        if idx % 3 == 1:
+            # an idle subscriber with a filter that would raise: filters belong to the subscriber's
+            # side, so publishing must not be affected by it
+            def bad_filter(ev: Any) -> bool:
+                raise RuntimeError("subscriber filter failed")
+
+            cm2 = self.real[idx].resource_added.stream_events(bad_filter, max_queue_size=100000)
+            await cm2.__aenter__()
+            self.idle_streams.setdefault(idx, []).append(cm2)
+            self.labels.add("idle-subscriber-with-raising-filter")
 
     async def drain(self, idx: int) -> None:
         """Compare the events received on context idx with the model's log."""
         from asphalt.core import ResourceEvent
 
         cm, it = self.streams.pop(idx)
+        for cm2 in self.idle_streams.pop(idx, []):
+            try:
+                await cm2.__aexit__(None, None, None)
+            except Exception:
+                pass
         rc = self.real[idx]
         expected = list(self.m.ctxs[idx].log)
         sentinel = ResourceEvent((), "__verif_sentinel__", None, False)
@@ -1328,6 +1344,11 @@ class Interp:
             cm, it = self.streams.pop(idx)
             try:
                 await cm.__aexit__(None, None, None)
+            except Exception:
+                pass
+        for cm2 in self.idle_streams.pop(idx, []):
+            try:
+                await cm2.__aexit__(None, None, None)
             except Exception:
                 pass
         try:
